@@ -93,7 +93,8 @@ def _solve_before(args, kwargs):
     if _pending:
         # what the CALLER asked for (save times, stop criteria, directives), as opposed to what reached _solve: a public method that
         # edits its arguments before delegating would otherwise be judged against its own edited request
-        api = _pending[-1]
+        # (the OUTERMOST public call in progress: a solve() that delegates to restart() is still the caller's solve())
+        api = _pending[0]
         log.api = api
         log.tsave_at_solve, log.stop_at_solve = log.tsave, log.stop
         log.tsave, log.stop, log.directives = list(api["tsave"]), (dict(api["stop"]) if api["stop"] else None), dict(api["directives"])
